@@ -146,7 +146,17 @@ func (a *observation) diff(b *observation, full bool) string {
 
 // liveSnapshotDiff names the first component in which two snapshots differ,
 // ignoring stack entries above the stack pointer (dead by construction).
-func liveSnapshotDiff(a, b *xmss.VerifState) string {
+func liveSnapshotDiff(a, b *xmss.VerifState) (d string) {
+	// a changed library may lay its buffers out differently: never let the
+	// diagnostic snapshot comparison take the harness down
+	defer func() {
+		if r := recover(); r != nil {
+			d = "snapshot-layout"
+		}
+	}()
+	if a == nil || b == nil {
+		return ""
+	}
 	switch {
 	case !bytes.Equal(a.SK, b.SK):
 		return "sk"
@@ -175,6 +185,9 @@ func liveSnapshotDiff(a, b *xmss.VerifState) string {
 }
 
 func fullSnapshotDiff(a, b *xmss.VerifState) string {
+	if a == nil || b == nil {
+		return ""
+	}
 	if d := liveSnapshotDiff(a, b); d != "" {
 		return d
 	}
@@ -185,6 +198,17 @@ func fullSnapshotDiff(a, b *xmss.VerifState) string {
 		return "fields"
 	}
 	return ""
+}
+
+// snap takes a state snapshot through the hook; nil if the hook cannot cope
+// with the (changed) library's layout.
+func snap(k *xmss.XMSS) (s *xmss.VerifState) {
+	defer func() {
+		if recover() != nil {
+			s = nil
+		}
+	}()
+	return k.VerifSnapshot()
 }
 
 type xexec struct {
@@ -279,7 +303,7 @@ func RunXMSS(ep *Episode) *Result {
 		x.violate("C02", "index-mismatch", "fresh", fmt.Sprintf("fresh key GetIndex=%d", g))
 	}
 	if x.twin != nil {
-		if d := liveSnapshotDiff(x.live.VerifSnapshot(), x.twin.VerifSnapshot()); d != "" {
+		if d := liveSnapshotDiff(snap(x.live), snap(x.twin)); d != "" {
 			x.violate("C08", "nondeterministic-keygen", d, "two keys built from the same seed differ in "+d)
 		}
 	}
@@ -370,7 +394,7 @@ func (x *xexec) doSign(msg []byte) {
 	expectEmit := idx < x.leaves
 	var snapBefore *xmss.VerifState
 	if !expectEmit {
-		snapBefore = x.live.VerifSnapshot()
+		snapBefore = snap(x.live)
 	}
 	var sig []byte
 	var err error
@@ -425,7 +449,20 @@ func (x *xexec) doSign(msg []byte) {
 		// C01
 		x.checkSignature(msg, sig, idx)
 		// twin
-		if x.twin != nil {
+		if x.twin != nil && x.twinMode == "ff" {
+			// the twin never signs: it follows by SetIndex, so every index
+			// compares the signing path's state with the fast-forward path's
+			if idx+1 < x.leaves {
+				toc := guard(func() { x.twin.SetIndex(idx + 1) })
+				if toc.panicked {
+					x.twinBroke("SetIndex", idx+1, toc, nil)
+				} else {
+					x.compareAuthWithTwin()
+				}
+			} else {
+				x.twin = nil // cannot follow to exhaustion without signing
+			}
+		} else if x.twin != nil {
 			var tsig []byte
 			var terr error
 			toc := guard(func() { tsig, terr = x.twin.Sign(msg) })
@@ -554,7 +591,10 @@ func (x *xexec) checkAuthFromSnapshot() {
 	if x.model >= x.leaves {
 		return
 	}
-	s := x.live.VerifSnapshot()
+	s := snap(x.live)
+	if s == nil {
+		return
+	}
 	x.checkAuth(s.Auth, x.model, "state")
 	if x.model > 0 {
 		x.res.Nontrivial["C01"] = true
@@ -568,7 +608,7 @@ func (x *xexec) afterRefused(before *xmss.VerifState, what string) {
 	}
 	x.checkObs(true, "refused "+what)
 	if before != nil {
-		if d := fullSnapshotDiff(before, x.live.VerifSnapshot()); d != "" {
+		if d := fullSnapshotDiff(before, snap(x.live)); d != "" {
 			x.pendSnap = append(x.pendSnap, "refused "+what+": "+d)
 		}
 	}
@@ -580,7 +620,7 @@ func (x *xexec) doJump(j uint32) {
 	valid := j >= idx && j < x.leaves
 	var before *xmss.VerifState
 	if !valid {
-		before = x.live.VerifSnapshot()
+		before = snap(x.live)
 	}
 	oc := guard(func() { x.live.SetIndex(j) })
 	if valid {
@@ -776,7 +816,7 @@ func (x *xexec) doCrash(op *Op) {
 		x.violate("C09", "restored-identity", fmt.Sprintf("%s,form=%s,%s", x.cfgSig(), op.Form, d), "rebuilt key differs from the original in "+d)
 	}
 	if x.twin != nil {
-		if d := liveSnapshotDiff(x.live.VerifSnapshot(), x.twin.VerifSnapshot()); d != "" {
+		if d := liveSnapshotDiff(snap(x.live), snap(x.twin)); d != "" {
 			x.pendSnap = append(x.pendSnap, fmt.Sprintf("restart@%d->%d form=%s: %s", crashIdx, r, op.Form, d))
 		}
 	}
@@ -852,12 +892,15 @@ func (x *xexec) compareAuthWithTwin() {
 	if x.twin == nil || x.diverged {
 		return
 	}
-	a, b := x.live.VerifSnapshot(), x.twin.VerifSnapshot()
+	a, b := snap(x.live), snap(x.twin)
+	if a == nil || b == nil {
+		return
+	}
 	if !bytes.Equal(a.Auth, b.Auth) {
 		p, o := x.divergenceProperty()
 		x.diverged = true
 		x.violate(p, o, fmt.Sprintf("%s,auth@%d", x.cfgSig(), x.model), fmt.Sprintf("authentication path at index %d differs from the twin's", x.model))
-	} else if x.restarted {
+	} else if x.restarted || x.ep.Twin == "ff" {
 		x.res.Nontrivial["C08"] = true
 	}
 }
